@@ -257,6 +257,8 @@ pub fn generate(seed: u64, tier: &str, sink: &mut Sink) {
     w.extend_from_slice(b"5;");
     w.extend(std::iter::repeat(b'x').take(endless_len));
     run_endless("chunk-ext", w, 100, CHUNKED_HEAD.len() + consts.chunk_size_line_limit + cap, sink, false);
+    // a CONNECT refusal body beyond the cap is cut, never buffered whole
+    crate::p_c12::generate_sel(seed, tier, sink, true);
     // declared sizes far beyond what is sent
     for decl in ["7fffffff", "80000000", "7fffffffffffffff", "ffffffffffffffff", "10000000000000000"] {
         let mut w = CHUNKED_HEAD.to_vec();
